@@ -2,7 +2,7 @@ SPECIFICATION Spec
 CONSTANTS
   Rank = 1
   MaxExt = 3
-  MaxSteps = 4
+  MaxSteps = 5
   Acts = {"Write", "SetAll", "Append", "Extent", "Cal", "Reopen"}
 INVARIANT TypeOK
 PROPERTIES SlabFrame ViewFrame GrowReadsZero AppendKeeps RawUnaffected RejectFrame
